@@ -9,7 +9,9 @@ import (
 
 // C16: statement separation; whitespace substitution and comments in whitespace gaps are neutral.
 
-var wsSubst = []string{"\t", "\n", "\r", "\r\n", "  ", " \t\n "}
+var wsSubst = []string{"\t", "\n", "\r", "\r\n", "  ", " \t\n ",
+	// long runs: however much white space a gap holds, it is one gap
+	strings.Repeat(" ", 65), strings.Repeat("\t", 129), strings.Repeat(" \r\n", 70)}
 var commentSubst = []string{" /*c*/ ", " -- c\n ", "\n-- x y z\n", " /* a * / b */ ", "\t/**/\t", " /* -- */ ", " /***/ ", " /****/ ", " /*** banner ***/ ", " /* ** * ***/ ", " --\n ", " /* \n */ "}
 
 // posOfOffset: line/char of a byte offset in an ASCII, CR-free text
